@@ -1,8 +1,10 @@
 (* C20 -- GNSS week/time-of-week, ns counters and day-of-year are exact and invertible.
-   Integer part proved here; the float-valued day_of_year()/from_day_of_year agreement "to float
-   precision" is covered by correspondence with a tolerance (partial, see DESIGN.md). *)
-From Coq Require Import ZArith Bool List.
-From HF Require Import MachInt GenConsts Duration Epoch SignedNs Civil LeapSpec DurationP EpochP.
+   Integer part proved here, and the float day_of_year() accessor is proved within 2^-40 day of (time elapsed in the year) + 1
+   (Flocq); the from_day_of_year direction and the round trip "to float precision" are covered by correspondence with a
+   tolerance (partial, see DESIGN.md). *)
+From Coq Require Import ZArith Bool List Reals.
+From Flocq Require Import Core.Core IEEE754.BinarySingleNaN.
+From HF Require Import MachInt GenConsts Duration Epoch F64 Gregorian Views SignedNs Civil LeapSpec DurationP EpochP ViewsFloatP.
 Open Scope Z_scope.
 
 Theorem C20_time_of_week_build : forall w ns t,
@@ -30,6 +32,15 @@ Proof. exact from_nanoseconds_spec. Qed.
 Theorem C20_to_counter : forall e t d, to_duration_in_time_scale e t = Some d -> canon d ->
   to_nanoseconds_in_time_scale e t = Some (if (0 <=? val d) && (val d <? SNPC) then Some (val d) else None).
 Proof. exact to_nanoseconds_spec. Qed.
+
+(* day of year: one-based, within 2^-40 day of the exact value, for the duration elapsed in the year that the integer model gives *)
+Theorem C20_day_of_year_error : forall e d, duration_in_year_fast e = Some d -> canon d -> 0 <= val d < 367 * 86400000000000 ->
+  exists r, day_of_year e = Some r /\ is_finite r = true /\
+            (Rabs (B2R r - (IZR (val d) / IZR 86400000000000 + 1)) <= bpow radix2 (-40))%R.
+Proof. exact day_of_year_err. Qed.
+Example C20_day_of_year_nonvacuous :      (* 1900-01-01T12:00 TAI: half a day into the year *)
+  duration_in_year_fast (mkE (mkD 0 43200000000000) TAI) = Some (mkD 0 43200000000000).
+Proof. vm_compute. reflexivity. Qed.
 
 Example C20_nonvacuous :
   to_time_of_week (mkE (mkD 0 1209600000000005) GPST) = (2, 5) /\
